@@ -32,7 +32,8 @@ ASSUMPTIONS = [
 BOUNDS = {
     'quick': 'd<=2: all ordered key patterns x all ordered key patterns (65x65) for every (p,q,r) and mixed explicit orderings; '
              'd=3: sampled subset pairs, all grade-union pairs, all single-blade pairs; d=4,5: grade unions, dense, random sparse; '
-             'd=7 (lazy sign table): random sparse; option variants cse=False, graded=True, wrapper=identity on slices',
+             'd=7 (lazy sign table): random sparse; option variants cse=False, graded=True, wrapper=identity on slices; configuration fuzz; '
+             'twin algebras coexisting in one process (kv/coexist.py); 30 trig-ring cases (sympy coefficients in cos t, sin t)',
     'thorough': 'as quick plus d=3 all 256x256 canonical subsets for all ten (p,q,r), d=4 20k random pairs, d=5 2k random + dense, d=7,8 random sparse',
 }
 OUTSIDE = ['d > 8', 'key tuples with a repeated blade', 'floating-point rounding', 'thread schedules']
